@@ -557,7 +557,7 @@ from harness import monitors as M  # noqa: E402
 REQUIRED_INVARIANTS = {"running_task_in_running_stage", "mutex", "choice", "ids"}
 
 CRASH_QUICK = ["chain3", "diamond", "multitask", "fail_terminal", "continue_on_failure", "poll", "transient2",
-               "first_of", "quorum", "self_loop"]
+               "first_of", "quorum", "self_loop", "choice3", "mutex_pair", "or_split"]
 
 
 def spec_key(spec) -> str:
@@ -652,7 +652,16 @@ def plan(pid: str, tier: str, rng: random.Random) -> list[dict]:
                     for pol in ("fifo", "random"):
                         add(kind="inject", what="signal", stage=stage, signame=1 + (at % 3), persistent=pers, at=at,
                             spec=spec, name=n, policy=pol)
-    return cases
+    return corpus(pid) + cases
+
+
+def corpus(pid: str) -> list[dict]:
+    """minimised cases that once failed (genuine defects since repaired, or false alarms since corrected): they run
+    first in every tier.  One JSON case per line in /verif/corpus/<pid>.jsonl, committed; never written at run time."""
+    path = lib.VERIF / "corpus" / f"{pid}.jsonl"
+    if not path.exists():
+        return []
+    return [json.loads(line) for line in path.read_text().splitlines() if line.strip()]
 
 
 def base_policy(c: dict) -> str:
